@@ -20,6 +20,24 @@ fn main() {
         Some("check") => checks::main(&args[2..]),
         Some("baseline") => checks::baseline::main(&args[2..]),
         Some("selftest") => checks::selftest::main(&args[2..]),
+        Some("clone") => {
+            // debugging aid: print the unused copy made by clone_subgraph
+            let (_, text) = engines::disk::text_of(&args[2]);
+            match diskfault::clone_subgraph(&text, args[3].parse().unwrap_or(0)) {
+                Some((t, (a, b))) => {
+                    for (i, l) in t.split('\n').enumerate() {
+                        if i >= a && i <= b {
+                            println!("{:6} {}", i, l);
+                        }
+                    }
+                    0
+                }
+                None => {
+                    println!("no clone");
+                    1
+                }
+            }
+        }
         _ => {
             eprintln!("usage: ctesim check <ID> <quick|thorough> [--replay FILE] | worker ... | baseline");
             2
